@@ -87,6 +87,8 @@ def _locate_slice_strict(values, start, stop, step, issorted=False):
     # include last element
     if stop is not None:
         istop += -1+2*(step is None or step>0)
+        if istop < 0:
+            istop = None  # stop label is the first element (negative step): run to the beginning
     return istart, istop
 
 def locate_slice(values, start, stop, step, issorted=False):
